@@ -93,6 +93,7 @@ func c06RoundTrip(st *RevocationStore) *RevocationStore {
 const c06MaxK = 32
 
 func VerifC06SmallTree() {
+	vUnwind(4096)
 	vInjective("sha256")
 	vAssumption("SHA-256 is an uninterpreted function; collision-freeness is assumed only on the applications occurring in a query (needed for 'wrong secret is rejected')")
 	K := vChoice("K", c06MaxK+1)
@@ -160,4 +161,148 @@ func VerifC06SmallTree() {
 		vAssert(errU != nil, "a secret that was not received cannot be looked up")
 	}
 	vReach("filled")
+}
+
+// ---------------------------------------------------------------------------
+// (2) inductive step of AddNextEntry over the whole 2^48 index space.
+//
+// Representation invariant G(I) of a store whose next index is I (all that a
+// history of correct insertions 2^48-1, ..., I+1 can produce):
+//   * index = I, lenBuckets = bitlen(2^48-1-I) (number of received secrets);
+//   * for every used bucket i: buckets[i] = (J, secret(J)) where J is the most
+//     recently received index with exactly i trailing zeros; in particular
+//     I < J <= 2^48-1, and for i < ctz(I): J = I + 2^i, whose BOLT-3 secret is
+//     flip-and-hash(secret(I), i).
+// The pre-state below assumes only this much: buckets at or above ctz(I) are
+// otherwise arbitrary (any index in (I, 2^48), any secret), unused buckets are
+// completely arbitrary, the secret `a` of index I is arbitrary.
+// ---------------------------------------------------------------------------
+
+func c06StepState(b uint8, L uint8, I uint64, a chainhash.Hash) *RevocationStore {
+	st := &RevocationStore{lenBuckets: L, index: index(I)}
+	for i := uint8(0); i < maxHeight; i++ {
+		if i < b {
+			st.buckets[i] = element{index: index(I + uint64(1)<<i), hash: c06Flip(a, uint(i))}
+			continue
+		}
+		e := element{index: index(vU64("bucketIndex")), hash: c06Hash("bucketHash")}
+		if i < L {
+			// G(I): a used bucket holds an already received index
+			vAssume(uint64(e.index) > I && uint64(e.index) <= c06Top)
+		}
+		st.buckets[i] = e
+	}
+	return st
+}
+
+// c06StepDomain draws (b, L, I) with ctz(I) = b stated in plain bit arithmetic
+// and L = bitlen(received). `deep` is pinned by the tier (spec.json shards).
+func c06StepDomain() (b uint8, L uint8, I uint64) {
+	deep := vChoice("deep", 2)
+	b = uint8(vChoice("b", 48))
+	var m int
+	if deep == 0 {
+		m = vChoice("Lq", 3)
+	} else {
+		m = vChoice("Lt", 48)
+	}
+	// m = 0: first index with b trailing zeros (bucket b is new); m = 1: all 48
+	// buckets in use; m >= 2: lenBuckets = b + m (b+1 is impossible: the second
+	// index with b trailing zeros arrives after 3*2^b - 1 secrets)
+	switch m {
+	case 0:
+		L = b
+	case 1:
+		L = 48
+	default:
+		L = b + uint8(m)
+		if L >= 48 {
+			vAssume(false)
+		}
+	}
+	I = vU64("I")
+	vAssume(I <= c06Top)
+	vAssume(I&(uint64(1)<<(b+1)-1) == uint64(1)<<b)   // exactly b trailing zeros
+	vAssume(c06BitLenSym(c06Top-I) == L)               // L values stored after 2^48-1-I secrets
+	return b, L, I
+}
+
+// c06BitLenSym is c06BitLen without data-dependent control flow (the argument
+// is symbolic): number of k in 0..47 with n >= 2^k.
+func c06BitLenSym(n uint64) uint8 {
+	var l uint8
+	for k := uint(0); k < 48; k++ {
+		var one uint8
+		if n >= uint64(1)<<k {
+			one = 1
+		}
+		l += one
+	}
+	return l
+}
+
+func VerifC06Step() {
+	vUnwind(4096)
+	vInjective("sha256")
+	vAssumption("SHA-256 is an uninterpreted function; collision-freeness is assumed only on the applications occurring in a query (needed for 'wrong secret is rejected')")
+	vAssumption("pre-state of the inductive step: representation invariant G(I) as written in the harness; b = 48 (index 0) is the separate entry VerifC06StepLast")
+	b, L, I := c06StepDomain()
+	a := c06Hash("a")
+	st := c06StepState(b, L, I, a)
+	pre := *st
+
+	// a different secret for the same index is rejected as soon as BOLT-3 can
+	// tell (b >= 1); nothing is stored
+	if b >= 1 {
+		x := c06Hash("x")
+		vAssume(x != a)
+		cp := pre
+		errX := cp.AddNextEntry(&x)
+		vAssert(errX != nil, "step: a secret inconsistent with the stored ones is rejected")
+		vAssert(cp.index == pre.index && cp.lenBuckets == pre.lenBuckets, "step: a rejected secret does not advance the store")
+		for i := 0; i < int(maxHeight); i++ {
+			vAssert(cp.buckets[i] == pre.buckets[i], "step: a rejected secret does not change a bucket")
+		}
+		if errX != nil {
+			vReach("reject")
+		}
+	}
+
+	// the secret of the chain is accepted and G(I-1) holds afterwards
+	if err := st.AddNextEntry(&a); err != nil {
+		vAssert(false, "step: the next secret of the chain is accepted")
+		return
+	}
+	vReach("accept")
+	vAssert(uint64(st.index) == I-1, "step: next index decreases by one")
+	for i := 0; i < int(maxHeight); i++ {
+		if uint8(i) == b {
+			vAssert(uint64(st.buckets[i].index) == I && st.buckets[i].hash == a, "step: bucket ctz(I) holds the new secret")
+		} else {
+			vAssert(st.buckets[i] == pre.buckets[i], "step: the other buckets are unchanged")
+		}
+	}
+	vAssert(st.lenBuckets == c06BitLenSym(c06Top-I+1), "step: number of stored values is bitlen(received)")
+	vAssert(st.lenBuckets <= 49, "step: at most 49 stored values")
+
+	// across serialisation
+	dec := c06RoundTrip(st)
+	if dec == nil {
+		return
+	}
+	st = dec
+
+	// the secret just received is reproduced
+	got, err := st.LookUp(c06Top - I)
+	if err != nil || got == nil {
+		vAssert(false, "step: the secret just received can be looked up")
+		return
+	}
+	vAssert(*got == a, "step: the looked-up secret equals the received one")
+
+	// nothing below the next index (nor beyond 2^48) can be looked up
+	u := vU64("unreceived")
+	vAssume(u > c06Top-I)
+	_, errU := st.LookUp(u)
+	vAssert(errU != nil, "step: a secret that was not received cannot be looked up")
 }
